@@ -1,12 +1,150 @@
-"""K5 — handle typestate (filled in later in the build)."""
+"""K5 clients: typestate rules of the OggVorbis_File handle for C03 (R03.1), C12 (R12.4) and C20 (R20.4)."""
+import k5
+from facts import AnalysisBroken
+from rules import common
+
+_SCAN = {}
+
+# requires-live sites the finite-state abstraction cannot exclude and that were not demonstrated against the library:
+# (function, construct) -> reason
+ASSUME = {
+    ('ov_pcm_seek', '_make_decode_ready#0:entered-at-STREAMSET-or-above'):
+        'the handle can be in OPENED here only when ov_raw_seek (delegated to by ov_pcm_seek_page) met the BOS page of a stream '
+        'that is not a vorbis link and the next page read failed inside this very call; the call then reports an error code, '
+        'which is what the property asks of a call during which the source failed.  The ordinary path (ov_pcm_seek_page\'s own '
+        'success returns) is checked separately (own-success-returns-at-STREAMSET-or-above)',
+    ('ov_pcm_seek', '_make_decode_ready#0:entered-below-STREAMSET'):
+        'as for the entry at STREAMSET or above: only through the delegated ov_raw_seek with a foreign BOS page and a failing read',
+    ('ov_pcm_seek', 'vorbis_synthesis_pcmout#0:decoder-live'):
+        'reached with the decoder dumped only if the packet-discard loop is left through a failing _get_next_page directly '
+        'after the BOS page of a serial number that is not a vorbis link of the file, while the packets of the link ran out '
+        'before the target (needs a multiplexed later link, an overstated end granule and an I/O error at that very read); '
+        'a replay with all three did not reach it (findings/replay_seek_foreign_bos.c), so it is listed as an assumption, '
+        'not as a finding',
+}
 
 
-def c12(chk, P):
-    return
+def scan(P):
+    """run every public vorbisfile function with a handle parameter from each consistent entry state"""
+    if id(P) in _SCAN:
+        return _SCAN[id(P)]
+    K = k5.K5(P)
+    api = {}
+    for fn in common.file_api(P):
+        F = P.need(fn)
+        hp = K.handle_params(F)
+        if not hp:
+            continue
+        for rs in range(5):
+            entry = {gi: (rs, rs == 4, rs == 4, False) for gi in hp}
+            sm = K.summary(P.key(F), entry, ())
+            api[(fn, rs)] = sm
+    uses, ready = {}, {}
+    for mk, h in list(K.memo.items()):
+        if isinstance(mk, tuple) and len(mk) == 2 and mk[1] == 'hook':
+            F = h.F
+            for (e, d, need, ok, rs) in h.uses:
+                u = uses.setdefault((P.key(F), e), {'callee': d, 'need': need, 'ok': True, 'entries': []})
+                if not ok:
+                    u['ok'] = False
+                    u['entries'].append((mk[0][1], str(rs)))
+            for (e, rs) in h.ready_calls:
+                # the API-level entry state is not known here (summaries are shared); classify by this function's own entry
+                ent = mk[0][1]
+                low_entry = all(en[0] < k5.STREAMSET for (_, en) in ent)
+                r = ready.setdefault((P.key(F), e, 'entered-below-STREAMSET' if low_entry else 'entered-at-STREAMSET-or-above'),
+                                     {'ok': True, 'entries': []})
+                if rs is None or rs.lo < k5.STREAMSET:
+                    r['ok'] = False
+                    r['entries'].append((ent, str(rs)))
+    _SCAN[id(P)] = (K, api, uses, ready)
+    return _SCAN[id(P)]
+
+
+def _ordinal(F, e, name):
+    same = sorted(F.calls(name), key=lambda x: F.ex[x]['loc'])
+    return same.index(e) if e in same else 0
 
 
 def c03(chk, P):
-    return
+    chk.rule('R03.1', 'typestate of the handle, finite-state and exact over (ready_state, decoder live, block live, packet queue '
+             'known empty) with relational summaries of every internal function per entry state: (a) every public vorbisfile '
+             'function, entered in any consistent state (ready_state==INITSET <=> vd and vb initialised), returns in a consistent '
+             'state on every path; (b) every call of a decode function that dereferences the decoder or the block '
+             '(vorbis_synthesis_trackonly/blockin/pcmout/lapout) is reached only with that object initialised')
+    K, api, uses, ready = scan(P)
+    fns = sorted({fn for (fn, rs) in api})
+    for fn in fns:
+        F = P.need(fn)
+        bad = []
+        n = 0
+        for rs in range(5):
+            sm = api.get((fn, rs))
+            if sm is None:
+                raise AnalysisBroken(f'K5: no summary for {fn} from ready_state {rs}')
+            for (cls, lo, hi, ex) in sm:
+                for (gi, rlo, rhi, vd, vb, qe) in ex:
+                    n += 1
+                    for r in range(rlo, rhi + 1):
+                        if not k5.consistent(r, vd, vb):
+                            bad.append(f'entered with ready_state {rs}: returns [{lo},{hi}] with ready_state {r}, vd {"live" if vd else "cleared"}, '
+                                       f'vb {"live" if vb else "cleared"}')
+        chk.ob('R03.1', fn, 'returns-consistent-typestate', not bad, F.where(),
+               f'{n} exit states over 5 entry states, all consistent' if not bad else '; '.join(sorted(set(bad))[:3]))
+    for (k, e), u in sorted(uses.items(), key=lambda kv: (kv[0][0], P.fn[kv[0][0]].ex[kv[0][1]]['loc'])):
+        F = P.fn[k]
+        cons = f'{u["callee"]}#{_ordinal(F, e, u["callee"])}:{"decoder" if u["need"] == "vd" else "block"}-live'
+        if not u['ok'] and (k, cons) in ASSUME:
+            chk.assumed('R03.1', k, cons, F.where(e), ASSUME[(k, cons)])
+            continue
+        chk.ob('R03.1', k, cons, u['ok'], F.where(e),
+               'the object is initialised in every state that reaches the call' if u['ok'] else
+               f'reached with the {"decoder" if u["need"] == "vd" else "block"} cleared (entry state / ready_state at the call: '
+               f'{u["entries"][:2]}): {u["callee"]} dereferences it')
+    chk.floor('R03.1', 40)
+    chk.notes.append(f'K5: {K.runs} function analyses; recursion assumed state-preserving for {sorted(K.recursion_assumed)}')
+
+
+def c12(chk, P):
+    chk.rule('R12.4', 'the handle stays usable after a failure: from every consistent entry state (in particular OPENED, where a '
+             'failed seek leaves the handle) every call of _make_decode_ready is reached with ready_state >= STREAMSET, i.e. its '
+             '"internal logic fault" return (OV_EFAULT) is unreachable: the next seek or read can rebuild the decoder')
+    K, api, uses, ready = scan(P)
+    for (k, e, cls), r in sorted(ready.items(), key=lambda kv: (kv[0][0], P.fn[kv[0][0]].ex[kv[0][1]]['loc'], kv[0][2])):
+        F = P.fn[k]
+        cons = f'_make_decode_ready#{_ordinal(F, e, "_make_decode_ready")}:{cls}'
+        if not r['ok'] and (k, cons) in ASSUME:
+            chk.assumed('R12.4', k, cons, F.where(e), ASSUME[(k, cons)])
+            continue
+        chk.ob('R12.4', k, cons, r['ok'], F.where(e),
+               'ready_state >= STREAMSET in every state that reaches the call' if r['ok'] else
+               f'reachable with ready_state below STREAMSET (entry state / value at the call: {r["entries"][:2]}): the call returns '
+               'OV_EFAULT although nothing is wrong with the stream')
+    _own_success_returns(chk, P, K, 'ov_pcm_seek_page', 'R12.4')
+    chk.floor('R12.4', 4)
+
+
+def _own_success_returns(chk, P, K, fn, rule):
+    F = P.need(fn)
+    bad, n = {}, 0
+    for mk, rets in list(K.memo.items()):
+        if not (isinstance(mk, tuple) and len(mk) == 2 and mk[1] == 'rets' and mk[0][0] == P.key(F)):
+            continue
+        ent = mk[0][1]
+        if not all(k5.consistent(en[0], en[1], en[2]) and en[0] >= k5.OPENED for (_, en) in ent):
+            continue
+        for (e, own, v, rs, gi) in rets:
+            if not own or v is None or not (v.lo <= 0 <= v.hi):
+                continue
+            n += 1
+            if rs is None or rs.lo < k5.STREAMSET:
+                bad.setdefault(e, []).append((ent, str(rs)))
+    chk.require(n > 0, f'{fn}: no own success return seen')
+    rs_ = sorted({e for e in bad})
+    chk.ob(rule, fn, 'own-success-returns-at-STREAMSET-or-above', not bad, F.where(rs_[0]) if rs_ else F.where(),
+           f'{n} success-return states from entry states OPENED..INITSET, all with ready_state >= STREAMSET' if not bad else
+           f'return on line {F.loc(rs_[0])} can report success with ready_state {bad[rs_[0]][0][1]} (entered with {bad[rs_[0]][0][0]}): the decoder '
+           'cannot be rebuilt from there and the caller\'s _make_decode_ready fails with OV_EFAULT')
 
 
 def c20(chk, P):
